@@ -95,11 +95,14 @@ func (s *scanner) peek() (*pb.Result, error) {
 	if err != nil {
 		return nil, err
 	}
-	if !s.closed && s.rpc.RenewInterval() > 0 {
-		// Start up a renewer
+	if !s.closed && s.rpc.RenewInterval() > 0 && !s.isRegionScannerClosed() {
+		// Start up a renewer for the region scanner that is open now.
+		// There is nothing to renew between two regions, and a renewal
+		// sent without a scanner id would open a new region scanner
+		// that nobody closes.
 		renewCtx, cancel := context.WithCancel(s.rpc.Context())
 		s.renewCancel = cancel
-		go s.renewLoop(renewCtx, s.startRow)
+		go s.renewLoop(renewCtx, s.startRow, s.curRegionScannerID)
 	}
 
 	// fetch cannot return zero results
@@ -381,7 +384,7 @@ func (s *scanner) closeRegionScanner() {
 }
 
 // renews a scanner by resending scan request with renew = true
-func (s *scanner) renew(ctx context.Context, startRow []byte) error {
+func (s *scanner) renew(ctx context.Context, startRow []byte, scannerID uint64) error {
 	if err := ctx.Err(); err != nil {
 		return err
 	}
@@ -389,7 +392,7 @@ func (s *scanner) renew(ctx context.Context, startRow []byte) error {
 		s.rpc.Table(),
 		startRow,
 		nil,
-		hrpc.ScannerID(s.curRegionScannerID),
+		hrpc.ScannerID(scannerID),
 		hrpc.Priority(s.rpc.Priority()),
 		hrpc.RenewalScan(),
 	)
@@ -400,7 +403,7 @@ func (s *scanner) renew(ctx context.Context, startRow []byte) error {
 	return err
 }
 
-func (s *scanner) renewLoop(ctx context.Context, startRow []byte) {
+func (s *scanner) renewLoop(ctx context.Context, startRow []byte, scannerID uint64) {
 	scanRenewers.Inc()
 	t := time.NewTicker(s.rpc.RenewInterval())
 	defer func() {
@@ -411,7 +414,7 @@ func (s *scanner) renewLoop(ctx context.Context, startRow []byte) {
 	for {
 		select {
 		case <-t.C:
-			if err := s.renew(ctx, startRow); err != nil {
+			if err := s.renew(ctx, startRow, scannerID); err != nil {
 				s.logger.Error("error renewing scanner", "err", err)
 				return
 			}
